@@ -51,22 +51,26 @@ Section StreamRoundTrip.
   Variable toml : bool.
   Variable enc : value -> list string.
   Variable dec : list string -> res value.
-  Hypothesis dec_enc : forall d, dec (enc d) = Ok d.
-  Hypothesis enc_nosep : forall d, no_sep_line toml (enc d) = true.
 
   Definition write_stream (docs : list value) : list string := join_docs (map enc docs).
   Definition read_stream (lines : list string) : res (list value) := map_res dec (split_docs toml lines []).
 
-  Theorem stream_roundtrip docs : docs <> [] -> read_stream (write_stream docs) = Ok docs.
+  (* the premises are asked of the documents of THIS stream only: each one's text decodes back to it and holds no
+     separator line *)
+  Theorem stream_roundtrip docs : docs <> [] ->
+    Forall (fun d => dec (enc d) = Ok d /\ no_sep_line toml (enc d) = true) docs ->
+    read_stream (write_stream docs) = Ok docs.
   Proof.
-    intro Hne. unfold read_stream, write_stream. rewrite split_join.
-    - induction docs as [|d r IH]; [congruence|]. cbn [map map_res]. rewrite dec_enc. cbn [bind].
-      destruct r as [|d2 r2]; [reflexivity|]. rewrite IH by discriminate. reflexivity.
+    intros Hne Hall. unfold read_stream, write_stream. rewrite split_join.
+    - clear Hne. induction Hall as [|d r [Hd _] _ IH]; [reflexivity|]. cbn [map map_res]. rewrite Hd. cbn [bind].
+      rewrite IH. reflexivity.
     - destruct docs; [congruence|discriminate].
-    - clear Hne. induction docs as [|d r IH]; [reflexivity|]. cbn [map forallb]. now rewrite enc_nosep, IH.
+    - clear Hne. induction Hall as [|d r [_ Hs] _ IH]; [reflexivity|]. cbn [map forallb]. now rewrite Hs, IH.
   Qed.
 
   (* and the number of documents is preserved exactly: none dropped, none invented *)
-  Corollary stream_count docs l : docs <> [] -> read_stream (write_stream docs) = Ok l -> List.length l = List.length docs.
-  Proof. intros Hne H. rewrite (stream_roundtrip docs Hne) in H. inversion H. reflexivity. Qed.
+  Corollary stream_count docs l : docs <> [] ->
+    Forall (fun d => dec (enc d) = Ok d /\ no_sep_line toml (enc d) = true) docs ->
+    read_stream (write_stream docs) = Ok l -> List.length l = List.length docs.
+  Proof. intros Hne Hall H. rewrite (stream_roundtrip docs Hne Hall) in H. inversion H. reflexivity. Qed.
 End StreamRoundTrip.
